@@ -181,22 +181,28 @@ def bodyTokens (r : Req) : List Str :=
     | .raw => []
   else []
 
+def authOutTokens (r : Req) : AuthOut → List Str
+  | .same => headerTokens r.auth
+  | .set v => headerTokens (.plain v)
+
+def queryOutTokens (r : Req) : ItemsOut → List Str
+  | .same => queryTokens r.query
+  | .re items => valuesOf apiTokenKey items
+
+def cookieOutTokens (r : Req) : CookieOut → List Str
+  | .same => cookieTokens r.cookie
+  | .stripped => []
+
+def bodyOutTokens (r : Req) : ItemsOut → List Str
+  | .same => bodyTokens r
+  | .re items => valuesOf apiTokenKey items
+
 /-- Every credential the receiving cluster can discover in the forwarded request, with the same
 discovery rules the sending side uses: the Authorization header, `api_token` in the query string,
-the token cookie, `api_token` in a form body. -/
+the token cookie, `api_token` in a body declared as a form. -/
 def forwardedTokens (r : Req) (f : Fwd) : List Str :=
-  (match f.auth with
-   | .same => headerTokens r.auth
-   | .set v => headerTokens (.plain v)) ++
-  (match f.query with
-   | .same => queryTokens r.query
-   | .re items => valuesOf apiTokenKey items) ++
-  (match f.cookie with
-   | .same => cookieTokens r.cookie
-   | .stripped => []) ++
-  (match f.body with
-   | .same => bodyTokens r
-   | .re items => valuesOf apiTokenKey items)
+  authOutTokens r f.auth ++ queryOutTokens r f.query ++ cookieOutTokens r f.cookie ++
+    bodyOutTokens r f.body
 
 /-- all credentials `saltAuthToken` finds, in order: header, query string, cookie, then the form
 body's first non-empty `api_token` -/
@@ -249,15 +255,12 @@ theorem mem_encodeOrder_dropKey (kv : Str × Str) (kvs : List (Str × Str)) :
   rw [mem_encodeOrder]
   simp [dropKey, List.mem_filter]
 
-theorem queryOut_tokens (r : Req) :
-    (match queryOut r with
-     | .same => queryTokens r.query
-     | .re items => valuesOf apiTokenKey items) = [] := by
+theorem queryOut_tokens (r : Req) : queryOutTokens r (queryOut r) = [] := by
   unfold queryOut
   by_cases h : (goods r.query).any (fun kv => kv.1 == apiTokenKey) = true
-  · simp only [h, if_true]
+  · simp only [h, if_true, queryOutTokens]
     exact valuesOf_encodeOrder_dropKey _
-  · simp only [h, Bool.false_eq_true, if_false, queryTokens]
+  · simp only [h, Bool.false_eq_true, if_false, queryOutTokens, queryTokens]
     rw [valuesOf_eq_nil_iff]
     intro kv hkv hk
     exact h (List.any_eq_true.mpr ⟨kv, hkv, by simp [hk]⟩)
